@@ -625,6 +625,13 @@ func VerifyFunc(w *World, c *Contract) (res *FuncResult) {
 		x.variant0 = &v
 	}
 	x.bindParams(fr, fi, recvT, args, st)
+	x.tailStmt = nil
+	if body := fi.Body().List; len(body) > 0 {
+		switch last := body[len(body)-1].(type) {
+		case *ast.IfStmt, *ast.SwitchStmt, *ast.TypeSwitchStmt:
+			x.tailStmt = last
+		}
+	}
 	fl := x.execBlock(fi.Body().List, st)
 	if fl.normal != nil {
 		alive := x.tryPath(func() { x.doReturn(fr, fl.normal, nil, fi.Body().End()) })
